@@ -250,6 +250,10 @@ def e2e_cases(draw):
     if draw(st.booleans()):
         for L, nm in zip(spec['layers'], draw(st.permutations(TRICKY))):
             L['name'] = nm
+    for L in spec['layers']:
+        # dotted names that sort before / after the unit-test layer's name
+        if draw(st.integers(0, 3)) == 0:
+            L['modp'] = draw(st.sampled_from(['zz', 'aa', 'Z', 'zope.testrunner.layer.']))
     names = [L['name'] for L in spec['layers']]
     lp = draw(common.layer_pattern_strategy(names)) if draw(st.integers(0, 2)) == 0 else []
     return {'spec': spec, 'layer': lp, 'seed': draw(st.integers(0, 10 ** 6))}
@@ -294,7 +298,8 @@ class EndToEnd(Part):
             run = drive.run_inproc(spec, common.args_of({'layer': lp}))
             viol += common.run_escaped(run, 'C10')
             p = parse.parse(run.out)
-            hs = [b.layer.replace(spec['mp'], '') for b in p.blocks]
+            hs_raw = [b.layer for b in p.blocks]
+            hs = [h.replace(spec['mp'], '') for h in hs_raw]
             headers.append(hs)
             w = common.traceana.World(spec)
             if len(set(hs)) != len(hs):
@@ -304,7 +309,7 @@ class EndToEnd(Part):
                 viol.append(('C10/e2e-wrong-layer-set', 'headers %s, selected %s' % (hs, sorted(sel))))
             if model.UNIT_NAME in hs and hs[0] != model.UNIT_NAME:
                 viol.append(('C10/unit-not-first', 'headers %s' % hs))
-            idx = [w.full.get(spec['mp'] + h if h != model.UNIT_NAME else h) for h in hs]
+            idx = [w.full.get(h) for h in hs_raw]
             for a in range(len(idx)):
                 for b in range(a + 1, len(idx)):
                     if idx[a] not in (None, -1) and idx[b] not in (None, -1) and w.is_base_of(idx[b], idx[a]):
